@@ -496,30 +496,58 @@ func smallInputAsserts(ob *Obligation) string {
 	if fn == nil {
 		return ""
 	}
+	text := ""
+	if ob.Result != nil && ob.Result.SMTFile != "" {
+		if b, err := os.ReadFile(ob.Result.SMTFile); err == nil {
+			text = string(b)
+		}
+	}
 	key := funcKey(fn)
 	var out []string
-	var walk func(expr string, so *Sort, depth int)
-	walk = func(expr string, so *Sort, depth int) {
-		if depth > 4 || len(out) > 60 {
+	// the walk follows the Go type: integers are bounded, slices are short, pointers to structs and the first
+	// elements of slices are followed through the pre-state heaps the query mentions
+	var walk func(expr string, T types.Type, depth int)
+	walk = func(expr string, T types.Type, depth int) {
+		if depth > 5 || len(out) > 120 {
 			return
 		}
-		switch {
-		case so == SInt:
-			out = append(out, fmt.Sprintf("(assert (and (<= (- 1) %s) (<= %s 4)))", expr, expr))
-		case so == SSlice:
+		switch u := T.Underlying().(type) {
+		case *types.Basic:
+			if u.Info()&types.IsInteger != 0 {
+				out = append(out, fmt.Sprintf("(assert (and (<= (- 1) %s) (<= %s 4)))", expr, expr))
+			}
+		case *types.Slice:
 			out = append(out, fmt.Sprintf("(assert (<= (Slice_len %s) 3))", expr))
-		case so.Kind == KDT && so != SIface:
-			for _, f := range so.Fields {
-				walk("("+f.Name+" "+expr+")", f.Sort, depth+1)
+			hn := smtName(heapName(ArraySort(SInt, sortOf(u.Elem()))) + "@0")
+			if text != "" && strings.Contains(text, hn) && depth < 3 {
+				switch u.Elem().Underlying().(type) {
+				case *types.Struct, *types.Pointer, *types.Slice:
+					for i := 0; i < 2; i++ {
+						walk(fmt.Sprintf("(select (select %s (Slice_arr %s)) (+ (Slice_off %s) %d))", hn, expr, expr, i), u.Elem(), depth+2)
+					}
+				}
+			}
+		case *types.Struct:
+			so := sortOf(T)
+			if so.Kind != KDT || len(so.Fields) != u.NumFields() {
+				return
+			}
+			for i, f := range so.Fields {
+				walk("("+f.Name+" "+expr+")", u.Field(i).Type(), depth+1)
+			}
+		case *types.Pointer:
+			if _, ok := u.Elem().Underlying().(*types.Struct); !ok {
+				return
+			}
+			hn := smtName(heapName(sortOf(u.Elem())) + "@0")
+			if text != "" && strings.Contains(text, hn) {
+				walk(fmt.Sprintf("(select %s %s)", hn, expr), u.Elem(), depth+1)
 			}
 		}
 	}
 	for _, p := range fn.Params {
-		if _, isPtr := p.Type().Underlying().(*types.Pointer); isPtr {
-			continue // references are not data
-		}
 		n := smtName(fmt.Sprintf("p$%s@%s", p.Name(), sanitize(key)))
-		walk(n, sortOf(p.Type()), 0)
+		walk(n, p.Type(), 0)
 	}
 	return strings.Join(out, "\n") + "\n"
 }
